@@ -131,6 +131,17 @@ theorem graph_merge_old_resurrects_deleted_incoming_witness :
 /-- `get` answers the same for every hash (the segments and the index are carried as they are) -/
 theorem blob_restore_get (b : BlobLog) (hash : Nat) : (BlobLog.restore b.snapshot).get hash = b.get hash := rfl
 
+/-- the chunk and byte counters, recomputed from the index by `restore`, are the saved ones after any
+    sequence of appends (duplicates and sealed segments included) and garbage marks -/
+theorem blob_restore_counters (segSize : Nat) (ops : List BOp) :
+    (BlobLog.restore ((BlobLog.new segSize).run ops).snapshot).chunkCount = ((BlobLog.new segSize).run ops).chunkCount ∧
+    (BlobLog.restore ((BlobLog.new segSize).run ops).snapshot).totalBytes = ((BlobLog.new segSize).run ops).totalBytes := by
+  have h := BlobLog.run_inv _ ops (BlobLog.new_inv segSize)
+  exact ⟨h.count.symm, h.bytes.symm⟩
+
+example : ((BlobLog.new 4).run [.append 1 [1, 2, 3], .append 2 [4, 5, 6], .append 1 [1, 2, 3], .mark 2]).chunkCount = 2 ∧
+    ((BlobLog.new 4).run [.append 1 [1, 2, 3], .append 2 [4, 5, 6], .append 1 [1, 2, 3], .mark 2]).sealed.length = 1 := by decide
+
 /-- `contains` answers the same for every chunk that is not marked garbage -/
 theorem blob_restore_contains_unmarked (b : BlobLog) (hash : Nat) (h : hash ∉ b.garbage) :
     (BlobLog.restore b.snapshot).contains hash = b.contains hash := by
